@@ -69,7 +69,7 @@ Definition stress_ok (c : case) : bool :=
   Nat.leb 2 (List.length (c_results c)) &&
   forallb (fun rs => match rs with [(r, b)] => Nat.leb 1 r && Nat.eqb b 0 | _ => false end) (c_results c).
 
-Definition model_ok (c : case) : bool :=
+Definition model_ok1 (c : case) : bool :=
   if Nat.eqb (c_prim c) 13 || Nat.eqb (c_prim c) 14 || Nat.eqb (c_prim c) 15 then stress_ok c else
   if Nat.leb 100 (c_prim c) then free_ok c else
   match c_prim c with
@@ -97,7 +97,7 @@ Definition model_ok (c : case) : bool :=
   | _ => false
   end.
 
-Definition spec_ok (c : case) : bool :=
+Definition spec_ok1 (c : case) : bool :=
   match (if Nat.leb 100 (c_prim c) then c_prim c - 100 else c_prim c) with
   | 0 => sf_accepts (c_hist c) && complete (c_hist c)
   | 1 => lc_accepts (c_hist c) && complete (c_hist c)
@@ -116,3 +116,17 @@ Definition spec_ok (c : case) : bool :=
   | 12 => ir_accepts (c_m c) (c_hist c) && complete (c_hist c)
   | _ => false
   end.
+
+(* primitive numbers >= 200: TWO instances of the primitive in one run.  Threads 0..49 use the first
+   one, threads 50.. the second.  Instances share nothing, so each half -- its scripts, its results,
+   its part of the history -- must be a correct single-instance run on its own (same schedule). *)
+Definition in_half (hi : bool) (t : nat) : bool := if hi then Nat.leb 50 t else Nat.ltb t 50.
+Fixpoint mask {A} (hi : bool) (i : nat) (l : list (list A)) : list (list A) :=
+  match l with [] => [] | x :: r => (if in_half hi i then x else []) :: mask hi (S i) r end.
+Definition half (hi : bool) (c : case) : case :=
+  mkcase (c_prim c - 200) (c_n c) (c_m c) (mask hi 0 (c_scripts c)) (c_sched c) (mask hi 0 (c_results c))
+         (filter (fun e => in_half hi (e_t e) || Nat.leb 999 (e_t e)) (c_hist c)).
+Definition model_ok (c : case) : bool :=
+  if Nat.leb 200 (c_prim c) then model_ok1 (half false c) && model_ok1 (half true c) else model_ok1 c.
+Definition spec_ok (c : case) : bool :=
+  if Nat.leb 200 (c_prim c) then spec_ok1 (half false c) && spec_ok1 (half true c) else spec_ok1 c.
